@@ -116,7 +116,7 @@ export function* generate({ tier, seed }) {
     };
   };
   const randForms = () => ({ props: rng.pick(KEY_FORMS), emits: rng.pick(KEY_FORMS), name: rng.pick(KEY_FORMS) });
-  const reps = tier === 'quick' ? 3 : 30;
+  const reps = tier === 'quick' ? 8 : 120;
   for (const [prov, decl, shape, rt] of all) {
     for (let r = 0; r < reps; r++) { const g = emit(prov, decl, shape, rt, r === 0 ? { props: 'absent', emits: 'absent', name: 'absent' } : randForms()); if (g) yield g; }
   }
@@ -204,7 +204,7 @@ export async function check(group, records) {
 
 export function meta({ tier }) {
   return {
-    rule: `Provenance of the callee (${PROVENANCE.length}: vue named import at module level / used in an inner scope, aliased vue import, namespace member, same-named local function, same-named local arrow, shadowing binding in an inner scope, export of another module) x declaration kind (${DECLS.length}: const, let, var, export const, export default, assignment, nested in a call, object property) x call shape (${SHAPES.length}: no options, object literal, identifier options, call options, fully spread arguments, spread rest arguments, object-form first argument, named function expression) x resolveType on/off, each with ${tier === 'quick' ? 3 : 30} random choices of how the user supplies props / emits / name (absent, key: value, "key": value, shorthand, ["key"]: value, through a spread object) plus every key form alone on the main path. The mock defineComponent (or a recording stand-in for non-vue callees) shows what the runtime actually receives; user-supplied values must be received unchanged, derived ones only for vue's own binding with resolveType on, the variable's name only for plain declarations without an own name.`,
+    rule: `Provenance of the callee (${PROVENANCE.length}: vue named import at module level / used in an inner scope, aliased vue import, namespace member, same-named local function, same-named local arrow, shadowing binding in an inner scope, export of another module) x declaration kind (${DECLS.length}: const, let, var, export const, export default, assignment, nested in a call, object property) x call shape (${SHAPES.length}: no options, object literal, identifier options, call options, fully spread arguments, spread rest arguments, object-form first argument, named function expression) x resolveType on/off, each with ${tier === 'quick' ? 8 : 120} random choices of how the user supplies props / emits / name (absent, key: value, "key": value, shorthand, ["key"]: value, through a spread object) plus every key form alone on the main path. The mock defineComponent (or a recording stand-in for non-vue callees) shows what the runtime actually receives; user-supplied values must be received unchanged, derived ones only for vue's own binding with resolveType on, the variable's name only for plain declarations without an own name.`,
     exhaustive: ['provenance x declaration kind x shape x resolveType'],
     assumptions: ['an aliased vue import (`defineComponent as dc`) may be augmented or left alone (both accepted)'],
   };
